@@ -924,10 +924,10 @@ defprop("C08", "other", {"R"}, c08_cases, oracle=oracles.o_must_reject,
         nontrivial=lambda c, l: bool(c.meta and (c.meta.get("illformed") or c.meta.get("wellformed"))),
         rule="catalogue of ill-forming constructs, catalogue edits at content positions of generated documents, every truncation before the root end, meta strings, token strings, code points at every table boundary +- 1 and a sample (quick) / every 7th + sample (thorough) in text, name-start and name position; non-trivial = carries an expectation",
         technique="Coq proof of the character tables (translator-tied) + builder rejection lemmas + correspondence")
-defprop("C09", "other", {"R", "E", "X", "A"}, c09_cases, oracle=oracles.o_entities,
+defprop("C09", "proof", {"R", "E", "X", "A"}, c09_cases, oracle=oracles.o_entities,
         rule="cycles of length 1..32 from text / attribute / attribute inside an entity, fan-out f x depth d families, chains, many top-level references, random entity graphs",
         nontrivial=lambda c, l: True,
-        technique="Coq proof of the loop detector state machine (sound + complete) + correspondence")
+        technique="Coq proof of the loop detector (sound + complete), of the node / byte expansion budget over a whole parse and of cycle => EntityReferenceLoop + correspondence")
 defprop("C10", "proof", None, c10_cases, oracle=oracles.o_total, extra=c10_extra,
         rule="every battery (links, axes, iterators with all F/B words <= 4 and nth/len scripts, lookups, identity, text_pos_at for offsets 0..len+2, Debug/Display into a sink) on enumerated and random documents",
         technique="Coq model of the read API (panic sites explicit) + correspondence + isolated scale runs")
